@@ -52,6 +52,9 @@
 #ifndef VP_HEIGHT
 #define VP_HEIGHT 2
 #endif
+#ifndef VP_RD
+#define VP_RD 0
+#endif
 #define VP_MAXH 12
 #define VP_NODES (VP_N + 1)          /* head + VP_N */
 #define VP_LEVELS (VP_HEIGHT + 1)    /* levels the reference traversal walks (one above the tallest node) */
@@ -123,15 +126,26 @@ ldb_arena_alloc_aligned(ldb_arena_t *a, size_t size) {
 }
 
 /* ---- random height ---------------------------------------------------- */
+/* VP_HS (optional): decimal digits, one per insert, first insert = most
+   significant digit: the node heights of this query.  Without it heights are
+   symbolic in 1..VP_HEIGHT. */
 static int flips = 0;
+static int vp_want_h = 1;
 void ldb_rand_init(ldb_rand_t *r, uint32_t seed) { r->seed = seed; }
 int
 ldb_rand_one_in(ldb_rand_t *r, uint32_t n) {
   (void)r; (void)n;
+#ifdef VP_HS
+  if (flips + 1 >= vp_want_h)
+    return 0;
+  flips++;
+  return 1;
+#else
   if (flips + 1 >= VP_HEIGHT)
     return 0;
   if (vp_bool()) { flips++; return 1; }
   return 0;
+#endif
 }
 
 /* ---- comparator: first data byte of a 1-byte key ----------------------- */
@@ -223,10 +237,14 @@ vp_mid_reader(void) {
   xin = (vp_x >= 1 && (vp_linked[vp_x] & 1u) && vp_xkey[1] >= t && (best < 0 || vp_xkey[1] < bk));
   if (xin) {
     VP_ASSERT(ldb_skipiter_valid(&it) && it.node == (ldb_skipnode_t *)ndp[vp_x], "C10.c(v) real reader mid-insert: finds x once x is linked on level 0");
-    VP_WITNESS("midread-x");
+#if (VP_HS % 10) > 1
+    VP_WITNESS("midread-x");   /* only a taller node is visible on level 0 while stores are still to come */
+#endif
   } else if (best >= 0) {
     VP_ASSERT(ldb_skipiter_valid(&it) && vp_index_of(it.node) == best, "C10.c(v) real reader mid-insert: finds the first old key >= target");
+#if VP_N > 1
     VP_WITNESS("midread-old");
+#endif
   } else {
     VP_ASSERT(!ldb_skipiter_valid(&it), "C10.c(v) real reader mid-insert: nothing >= target");
   }
@@ -342,6 +360,15 @@ vp_insert(int n) {
   vp_ins_stores = 0;
   vp_xkey = &e_key[0][0] + n * 2;
   flips = 0;
+#ifdef VP_HS
+  {
+    int d = VP_HS, q;
+    for (q = n + 1; q < VP_N; q++)
+      d /= 10;
+    vp_want_h = d % 10;
+    VP_ASSERT(vp_want_h >= 1 && vp_want_h <= VP_HEIGHT, "vp-model: VP_HS digit within 1..VP_HEIGHT");
+  }
+#endif
   vp_phase = VP_PH_INSERT;
   ldb_skiplist_insert(&vp_list, vp_xkey);
   VP_ASSERT(vp_x >= 1, "insert allocates its node");
@@ -361,8 +388,8 @@ vp_insert(int n) {
       VP_ASSERT(vp_linked[vp_x] & (1u << j), "new node linked on each of its levels");
 #if VP_HEIGHT > 1
   if (h > 1) VP_WITNESS("tall-node");
-#endif
   if (h > old_mh) VP_WITNESS("max-height-grows");
+#endif
 }
 
 void
@@ -408,22 +435,24 @@ harness(void) {
     vp_insert(i);
   }
 
-  /* ---- readers on the quiescent list ----------------------------------- */
+  /* ---- readers on the quiescent list (VP_RD: 0 none, 1 seek+next, 2 last+prev, 3 first+contains) */
+#if VP_RD != 0
   target[0] = 1;
   target[1] = vp_u8();
   vp_phase = VP_PH_READ;
   ldb_skipiter_init(&it, &vp_list);
+  best = -1; bk = 0;
+  for (j = 1; j < VP_NODES; j++)
+    if (vp_kb[j] >= target[1] && (best < 0 || vp_kb[j] < bk)) { best = j; bk = vp_kb[j]; }
+#endif
 
+#if VP_RD == 1
   loads0 = vp_slot_loads; mh0 = vp_mh_loads;
   ldb_skipiter_seek(&it, target);
   VP_ASSERT(vp_mh_loads > mh0, "C10.c(iv) seek reads max_height through the atomic accessor");
   VP_ASSERT(vp_slot_loads > loads0, "C10.c(iii) seek follows pointers through the atomic accessor");
-  best = -1; bk = 0;
-  for (j = 1; j < VP_NODES; j++)
-    if (vp_kb[j] >= target[1] && (best < 0 || vp_kb[j] < bk)) { best = j; bk = vp_kb[j]; }
   VP_ASSERT(ldb_skipiter_valid(&it) == (best >= 0), "seek: valid iff some key >= target");
   VP_ASSERT(best < 0 || it.node == (ldb_skipnode_t *)ndp[best], "seek: first key >= target");
-
   n = 0;
   while (ldb_skipiter_valid(&it) && n <= VP_N) {
     uint8_t cur = ldb_skipiter_key(&it)[1];
@@ -438,10 +467,10 @@ harness(void) {
     if (vp_kb[j] >= target[1]) expect++;
   VP_ASSERT(n == expect, "seek + next yields every key >= target once");
   if (n == VP_N) VP_WITNESS("read-all");
-
+#elif VP_RD == 2
   loads0 = vp_slot_loads; mh0 = vp_mh_loads;
   ldb_skipiter_last(&it);
-  VP_ASSERT(VP_N == 0 || (vp_mh_loads > mh0 && vp_slot_loads > loads0), "C10.c(iii,iv) last goes through the atomic accessors");
+  VP_ASSERT(vp_mh_loads > mh0 && vp_slot_loads > loads0, "C10.c(iii,iv) last goes through the atomic accessors");
   VP_ASSERT(ldb_skipiter_valid(&it) == (VP_N > 0), "last: valid iff non-empty");
   if (ldb_skipiter_valid(&it)) {
     uint8_t cur = ldb_skipiter_key(&it)[1];
@@ -458,15 +487,22 @@ harness(void) {
 #endif
     }
   }
-
+  (void)n; (void)expect;
+#elif VP_RD == 3
   loads0 = vp_slot_loads;
   ldb_skipiter_first(&it);
   VP_ASSERT(vp_slot_loads == loads0 + 1, "C10.c(iii) first loads head->next[0] through the atomic accessor");
   VP_ASSERT(ldb_skipiter_valid(&it) == (VP_N > 0), "first: valid iff non-empty");
-
-  loads0 = vp_slot_loads;
+  loads0 = vp_slot_loads; mh0 = vp_mh_loads;
   VP_ASSERT(ldb_skiplist_contains(&vp_list, target) == (best >= 0 && bk == target[1]), "contains: exact membership");
-  VP_ASSERT(vp_slot_loads > loads0, "C10.c(iii) contains follows pointers through the atomic accessor");
+  VP_ASSERT(vp_mh_loads > mh0 && vp_slot_loads > loads0, "C10.c(iii,iv) contains goes through the atomic accessors");
+#if VP_N > 0
+  if (best >= 0 && bk == target[1]) VP_WITNESS("contains-hit");
+#endif
+  (void)n; (void)expect;
+#else
+  (void)n; (void)expect; (void)best; (void)bk; (void)loads0; (void)mh0; (void)it; (void)target;
+#endif
   vp_phase = VP_PH_IDLE;
 
 #ifdef VP_MIDREAD
